@@ -162,9 +162,9 @@ def _frac(x):
             return None, None
         return x.vfrac()
     if isinstance(x, core.SR):
-        return x.n, x.d
+        return x.frac()
     x = core.SR.lift(x)
-    return x.n, x.d
+    return x.frac()
 
 
 # ----------------------------------------------------------------------------------------
@@ -352,7 +352,8 @@ def eval_sym(x, env):
     """float value of SR / exp-value of SL / python number under env"""
     cache = {}
     if isinstance(x, core.SR):
-        return evalf(x.n, env, cache) / evalf(x.d, env, cache)
+        n, d = x.frac()
+        return evalf(n, env, cache) / evalf(d, env, cache)
     if isinstance(x, core.SL):
         if x.st == "z":
             return -math.inf
